@@ -21,7 +21,33 @@ ASSUMPTIONS = [
     "exits do not register further exits while the stack unwinds",
     "exception identity is compared through the injected id carried by the object (objects interned per run); odd ids are BaseException subclasses (cancellation-like)",
 ]
-KINDS = ["acm", "scm", "pcm", "pscm", "pa", "ps", "cb", "acb"]
+# pushed exit callables / callbacks also in the awaitable-returning flavours that are NOT coroutine functions:
+# "..o" object with `async def __call__`, "..r" object whose plain `__call__` returns a coroutine, "..l" lambda forwarding
+# to an async function, "..p" functools.partial of an async function
+KINDS = ["acm", "scm", "pcm", "pscm", "pa", "ps", "cb", "acb", "pao", "par", "pal", "pap", "acbo", "acbr", "acbl", "acbp"]
+CB_KINDS = ("cb", "acb", "acbo", "acbr", "acbl", "acbp")
+
+
+def _flavoured(afn, fl):
+    """the async function `afn` as another awaitable-returning callable flavour"""
+    import functools
+    if fl == "o":
+        class AsyncCallObj:
+            async def __call__(self, *a, **k):
+                return await afn(*a, **k)
+        return AsyncCallObj()
+    if fl == "r":
+        class CoroReturningObj:
+            def __call__(self, *a, **k):
+                return afn(*a, **k)
+        return CoroReturningObj()
+    if fl == "l":
+        return lambda *a, **k: afn(*a, **k)
+    if fl == "p":
+        async def tagged(_tag, *a, **k):
+            return await afn(*a, **k)
+        return functools.partial(tagged, "tag")
+    raise ValueError(fl)
 BODY_EXC = 5
 
 
@@ -123,6 +149,11 @@ async def _register(stack, entry, kind, std=False):
         async def aexit(et, ev, tb):
             return entry.react(ev)
         stack.push_async_exit(aexit) if std else stack.push(aexit)
+    elif kind in ("pao", "par", "pal", "pap"):
+        async def aexit2(et, ev, tb):
+            return entry.react(ev)
+        h = _flavoured(aexit2, kind[-1])
+        stack.push_async_exit(h) if std else stack.push(h)
     elif kind == "ps":
         def sexit(et, ev, tb):
             return entry.react(ev)
@@ -138,12 +169,20 @@ async def _register(stack, entry, kind, std=False):
             stack.push_async_callback(acb, entry.eid, "a", k=entry.eid)
         else:
             stack.callback(acb, entry.eid, "a", k=entry.eid)
+    elif kind in ("acbo", "acbr", "acbl", "acbp"):
+        async def acb2(*a, **k):
+            return entry.react_cb(a, k)
+        h = _flavoured(acb2, kind[-1])
+        if std:
+            stack.push_async_callback(h, entry.eid, "a", k=entry.eid)
+        else:
+            stack.callback(h, entry.eid, "a", k=entry.eid)
     else:
         raise ValueError(kind)
 
 
 def _as_cm(entry, kind):
-    if kind in ("cb", "acb"):
+    if kind in CB_KINDS:
         return CbCM(entry)
     return ACM(entry)
 
@@ -246,7 +285,7 @@ def observe(case):
 
 
 def model_request(case):
-    ents = {k: {"cb": v["k"] in ("cb", "acb"), "none": v["none"], "some": v["some"]}
+    ents = {k: {"cb": v["k"] in CB_KINDS, "none": v["none"], "some": v["some"]}
             for k, v in case["entries"].items()}
     if case["kind"] == "unwind":
         return {"m": "exitstack", "mode": "unwind", "entries": ents, "stack": case["stack"], "body": case["body"]}
